@@ -121,7 +121,7 @@ impl Prop for C01Prop {
         let max = if rng.chance(1, 50) { 70_000 } else { 9000 };
         let mut p = gen::gen_payload(rng, tier, max);
         if max == 70_000 && rng.chance(1, 2) {
-            let n = *rng.pick(&[65_534usize, 65_535, 65_536, 65_537, 69_999]);
+            let n = if rng.chance(1, 2) { rng.range(65_490, 65_560) } else { *rng.pick(&[65_534usize, 65_535, 65_536, 65_537, 69_999]) };
             p = gen::gen_payload_len(rng, n);
         }
         let enc = gen::gen_enc(rng);
